@@ -1346,8 +1346,11 @@ class ScenarioOutlineBuilder(object):
 
         tags = []
         for tag in outline_tags:
-            if cls.is_parametrized_tag(tag):
-                tag = cls.render_template(tag, row, params)
+            if not cls.is_parametrized_tag(tag):
+                # -- KEEP: Tag without placeholders as it is written.
+                tags.append(tag)
+                continue
+            tag = cls.render_template(tag, row, params)
             if cls.is_parametrized_tag(tag):
                 # -- OOPS: Unknown placeholder, drop tag.
                 continue
